@@ -249,6 +249,7 @@ void classify(const Case& k, const coop::RunResult& r, vh::Stats& st) {
     for (auto& c : k.cmds) { if (c.kind == "ponderhit") { st.cls("has ponderhit"); break; } }
     for (auto& c : k.cmds) { if (c.kind == "eof") { st.cls("ends with EOF"); break; } }
     if (k.spec.lockYield > 0) st.cls("mutex acquisitions are scheduling points");
+    if (r.threadsCreated >= 7 && k.spec.lockYield > 0 && k.spec.strategy != 0) st.cls("two-level helper tree (Threads >= 6), pre-emptive schedule, mutex scheduling points");
     st.count(std::string("strategy ") + (k.spec.strategy == 0 ? "non-preemptive" : k.spec.strategy == 1 ? "random" : k.spec.strategy == 2 ? "PCT" : "explicit"));
 }
 
